@@ -118,6 +118,7 @@ structure Sim where
   known : List OutPoint := []
   model : Option State := some init
   out : List String := []           -- reversed
+  views : List String := []         -- reversed: what each saved FetchUtxoView said when taken
 
 def Sim.find (s : Sim) (id : Nat) : Option Node := s.nodes.find? (fun n => n.blk.id == id)
 
@@ -236,6 +237,28 @@ def Sim.op (s : Sim) (tok : String) : Option Sim :=
         pure ({ s with model := restart m (fullsFor n), cfg := { s.cfg with cache := n } }.emit "ok")
       else
         pure ({ s with model := restartAborted m 1 (fullsFor n), cfg := { s.cfg with cache := n } }.emit "int")
+  | 'V' :: rest => do
+    -- FetchUtxoView of a known transaction: its outputs, then (unless coinbase) its inputs
+    let id ← (String.ofList rest).toNat?
+    let asCb := s.nodes.find? (fun n => n.blk.cb.id == id)
+    let asTx := s.nodes.findSome? (fun n => n.blk.txs.find? (fun t => t.id == id))
+    let first := s.nodes.find? (fun n => n.blk.cb.id == id || n.blk.txs.any (fun t => t.id == id))
+    match first with
+    | none => none
+    | some n =>
+      let (t, cb) := if n.blk.cb.id == id then (n.blk.cb, true)
+        else ((n.blk.txs.find? (fun t => t.id == id)).getD n.blk.cb, false)
+      let _ := asCb; let _ := asTx
+      let ops := txOutpoints t ++ (if cb then [] else t.ins)
+      let u := utxoOf s.chain
+      let str := s!"{id}:{join "," (ops.map (fun o => match u o with | none => "none" | some e => entryStr e))}"
+      let s := ops.foldl (fun s o => s.modelStep (.fetch o)) s
+      pure ({ s with views := str :: s.views }.emit str)
+  | ['W'] => pure (s.emit s!"w={join "/" s.views.reverse}")
+  | ['C'] =>
+    let u := utxoOf s.chain
+    let s := s.known.foldl (fun s o => s.modelStep (.fetch o)) s
+    pure (s.emit s!"u={utxoStr u s.known}")
   | ['R'] =>
     -- graceful restart = required flush; the reloaded cache is empty and names the tip
     pure ((s.modelStep (.flush .required s.full false)).emit "ok")
@@ -319,6 +342,17 @@ def handle : List String → String
     match parseCfg? cfg with
     | some cfg => runChain cfg toks
     | none => "bad-op"
+  | "multi" :: toks =>
+    -- independent instances: sub-lines separated by "##", answered one by one
+    let subs := toks.foldl (fun (acc : List (List String)) t =>
+      if t == "##" then [] :: acc else match acc with
+        | cur :: rest => (cur ++ [t]) :: rest
+        | [] => [[t]]) [[]]
+    join "##" (subs.reverse.map (fun sub => match sub with
+      | cfg :: ops => match parseCfg? cfg with
+        | some cfg => runChain cfg ops
+        | none => "bad-op"
+      | [] => "bad-op"))
   | "cache" :: toks => runCache toks
   | _ => "bad-op"
 
